@@ -529,7 +529,9 @@ def _poison_blocks(body):
     for b, t in body.calls():
         c = t.get("callee") or ""
         if c.endswith("::store") and "atomic" in c and t["args"]:
-            if any(POISON_FIELD in r.fields for r in trace(body, t["args"][0])):
+            import guardfx as _g
+
+            if any(_g.poison_fields(_facts_for_poison[0]) & set(r.fields) for r in trace(body, t["args"][0])):
                 # and the stored value is constant true
                 v = t["args"][1]
                 if v["k"] == "const" and v.get("int") == "1":
